@@ -181,6 +181,48 @@ def batch(args):
     return body
 
 
+def parallel_path(args):
+    """The parallel evaluation path (options['max_processes'] > 1: joblib worker THREADS) with ONE design per batch, so
+    that no two workers run at the same time (thread interleavings are C07 / not applicable).  What is decided here is
+    only what the caller sees: the outcome per objective call is scripted, the design and the objective values are
+    symbolic.  Five consecutive transient failures -> RuntimeError reaches the caller; any other exception propagates and
+    the design is not marked evaluated; four failures then success -> evaluated with the costs of the stored vector."""
+    script, expect = args['script'], args['expect']
+    from artap.individual import Individual
+    _install_sampler()
+    prob, alg = _mk(1, [(-1.0, 2.0)])
+
+    def body(ctx):
+        ec.reset_problem(prob, ctx)
+        prob.h.fault_script = list(script)
+        alg.options['max_processes'] = 2
+        ind = Individual(ec.sym_vector(ctx, 'd', prob))
+        raised = None
+        try:
+            alg.evaluate([ind])
+        except ec.OtherError as e:
+            raised = 'other'
+        except RuntimeError as e:
+            raised = 'runtime'
+        except TimeoutError as e:
+            raised = 'timeout'
+        finally:
+            alg.options['max_processes'] = 1
+        ctx.output('raised', raised)
+        ctx.check('parallel-path-outcome-seen-by-the-caller', raised != expect)
+        ctx.check('parallel-path-one-objective-call-per-attempt', len(prob.h.calls) != len(script))
+        nfail = len([c for c in prob.h.calls if c[2] != 'ok'])
+        if expect is None:
+            ctx.check('parallel-path-evaluated', ind.state != Individual.State.EVALUATED or len(ind.costs) != 1)
+            if ind.state == Individual.State.EVALUATED and len(ind.costs) == 1:
+                vec, vals, _f = prob.h.calls[-1]
+                ctx.check('parallel-path-costs-belong-to-the-stored-vector', Or(Not(ec.same_vec(vec, ind.vector)), ind.costs[0] != vals[0]))
+            ctx.check('parallel-path-failed-vectors-logged', len(prob.failed) != nfail)
+        else:
+            ctx.check('parallel-path-not-marked-evaluated', ind.state == Individual.State.EVALUATED)
+    return body
+
+
 def configs(tier):
     out = [
         {'name': 'single-dim1', 'task': 'single', 'args': {'dim': 1}, 'weight': 10, 'engine': {'validate': 100}},
@@ -193,6 +235,12 @@ def configs(tier):
         {'name': 'batch-b2-f3', 'task': 'batch', 'args': {'b': 2, 'max_faults': 3}, 'weight': 15, 'split': 32,
          'engine': {'validate': 60}},
     ]
+    for name, script, expect in (('five-failures', ['runtime', 'timeout', 'runtime', 'timeout', 'runtime'], 'runtime'),
+                                 ('four-failures-then-success', ['timeout', 'runtime', 'timeout', 'runtime', 'ok'], None),
+                                 ('other-exception', ['other'], 'other'), ('failure-then-other-exception', ['runtime', 'other'], 'other'),
+                                 ('success', ['ok'], None)):
+        out.append({'name': 'parallel-path-' + name, 'task': 'parallel_path', 'args': {'script': script, 'expect': expect},
+                    'weight': 3, 'engine': {'validate': 5}})
     if tier == 'thorough':
         out.append({'name': 'batch-b2-f6', 'task': 'batch', 'args': {'b': 2, 'max_faults': 6}, 'weight': 40, 'split': 64,
                     'engine': {'validate': 60}})
